@@ -484,6 +484,9 @@ class DensityEstimator(BaseEstimator):
         self._set_log_density_x()
         if build_predict:
             self._set_log_density_func()
+        else:
+            # a predictor built for an earlier latent state is outdated; it is rebuilt on access
+            self.log_density_func = None
         return self.log_density_x
 
     def fit(self, x=None, build_predict=True):
